@@ -17,6 +17,37 @@ pub extern "C" fn harness_marker() -> usize {
 
 pub const FOREIGN_MARKER_NOTE: &str = "same technique as datafusion-ffi's own unit tests (mock_foreign_marker_id)";
 
+/// Agreement of the planner's coercion through the native signature and through the FFI's `user_defined`
+/// signature (`coerce_types` → FFI → native `fields_with_udf`). For a user-defined signature the planner
+/// additionally checks that arrow can cast every argument to its coerced type
+/// (`maybe_data_types_without_coercion`); legacy native signatures skip that check and fail later, when the
+/// cast is built. So `native Ok / foreign Err` is accepted exactly when some argument is not castable to the
+/// native answer; every other disagreement is reported.
+pub fn coercion_agree(native: &Result<Vec<arrow::datatypes::DataType>, String>, foreign: &Result<Vec<arrow::datatypes::DataType>, String>, raw: &[arrow::datatypes::DataType]) -> Result<&'static str, String> {
+    match (native, foreign) {
+        (Ok(x), Ok(y)) if x == y => Ok("ok"),
+        (Err(_), Err(_)) => Ok("both-reject"),
+        (Ok(x), Err(_)) if x.len() == raw.len() && x.iter().zip(raw.iter()).any(|(to, from)| from != to && !arrow::compute::can_cast_types(from, to)) => Ok("native-accepts-uncastable"),
+        _ => Err(format!("native {native:?} foreign {foreign:?}")),
+    }
+}
+
+/// Run a NATIVE call with panic capture. A panic of the native component is not an FFI matter (and the same
+/// panic inside an `extern "C"` entry point would abort the process), so callers stop comparing when the native
+/// side panics and label the case instead.
+pub fn guard<T>(f: impl FnOnce() -> T) -> Result<T, String> {
+    match std::panic::catch_unwind(std::panic::AssertUnwindSafe(f)) {
+        Ok(v) => Ok(v),
+        Err(p) => Err(if let Some(s) = p.downcast_ref::<&str>() {
+            s.to_string()
+        } else if let Some(s) = p.downcast_ref::<String>() {
+            s.clone()
+        } else {
+            "<panic>".to_string()
+        }),
+    }
+}
+
 fn main() {
     vf_kit::dispatch! {
         "c45a" => c45a::C45a,
